@@ -48,10 +48,10 @@ pub fn cases(ctx: &mut Ctx) {
         let mut fl = vec![]; m.flat(&mut fl);
         let mr = rats(&fl);
         ctx.case("quat_of_m3", tag, &mr, &|| (), &|x| Quaternion::from(m3(x)));
-        ctx.case("quat_of_basis3", tag, &mr, &|| (), &|x| { let b: Basis3<Xq> = Basis3::from(Quaternion::from(m3(x))); let _ = b; let bb = Basis3::from_quaternion(&Quaternion::from(m3(x))); Quaternion::from(bb) });
+        ctx.case("quat_of_basis3", tag, &mr, &|| (), &|x| Quaternion::from(b3(x)));
         let mv: Vec<BigRat> = mr.iter().chain(v.iter()).cloned().collect();
         ctx.case("m3_rotate_vector", tag, &mv, &|| (), &|x| m3(x) * v3(&x[9..]));
-        ctx.case("basis3_rotate_vector", tag, &mv, &|| (), &|x| Basis3::from(Quaternion::from(m3(x))).rotate_vector(v3(&x[9..])));
+        ctx.case("basis3_rotate_vector", tag, &mv, &|| (), &|x| b3(x).rotate_vector(v3(&x[9..])));
         // composition of bases
         crate::xq::reset();
         let px: Vec<Xq> = p.iter().map(|r| Xq::new(r.clone())).collect();
@@ -59,9 +59,7 @@ pub fn cases(ctx: &mut Ctx) {
         let mut fl2 = vec![]; mp.flat(&mut fl2);
         let mm: Vec<BigRat> = mr.iter().chain(rats(&fl2).iter()).cloned().collect();
         ctx.case("basis3_mul", tag, &mm, &|| (), &|x| {
-            let a = Basis3::from(Quaternion::from(m3(x)));
-            let b = Basis3::from(Quaternion::from(m3(&x[9..])));
-            a * b
+            b3(x) * b3(&x[9..])
         });
         // a non-unit quaternion also has a matrix (the conversion itself does not require |q| = 1)
         let g = ctx.generic(4);
